@@ -1059,18 +1059,21 @@ class StructuredTypeUnmarshaller(AbstractUnmarshaller[_ST]):
         self.required = self._required_keys()
 
     def _required_keys(self) -> frozenset[str]:
-        required = set(getattr(self.t, "__required_keys__", ()))
-        if not required:
+        if not hasattr(self.t, "__required_keys__"):
             return frozenset()
+        required = set(self.t.__required_keys__)
         # With postponed evaluation of annotations (PEP 563) the class can't see
-        #   its own `NotRequired[...]` qualifiers, so check the evaluated hints.
+        #   its own `Required[...]`/`NotRequired[...]` qualifiers, so check the evaluated hints.
         try:
             hints = te.get_type_hints(self.t, include_extras=True)
         except (NameError, TypeError):
             hints = {}
         for name, hint in hints.items():
-            if te.get_origin(hint) is te.NotRequired:
+            qualifier = te.get_origin(hint)
+            if qualifier is te.NotRequired:
                 required.discard(name)
+            elif qualifier is te.Required:
+                required.add(name)
         return frozenset(required)
 
     def _fields_by_var(self):
